@@ -290,9 +290,51 @@ let op_frame opidx impl toks =
        | _ -> ())
   | _ -> ()
 
+(* ---- C18: log lines ---- *)
+let sha256 (b : n list) : n list = bytes_of_string (Sha256.sha256 (string_of_bytes b))
+let hmac_sha256 (k : n list) (m : n list) : n list = bytes_of_string (Sha256.hmac_sha256 (string_of_bytes k) (string_of_bytes m))
+let type_name c = match c with
+  | 1 -> "Access-Request" | 2 -> "Access-Accept" | 3 -> "Access-Reject" | 4 -> "Accounting-Request"
+  | 5 -> "Accounting-Response" | 11 -> "Access-Challenge" | 12 -> "Status-Server" | 13 -> "Status-Client" | _ -> "Unknown"
+let rec split_bar l acc = match l with
+  | [] -> (List.rev acc, [])
+  | "|" :: r -> (List.rev acc, r)
+  | x :: r -> split_bar r (x :: acc)
+
+let op_logline opidx impl toks =
+  match toks with
+  | kind :: logfull :: mode :: key :: level :: rcode :: qcode :: "|" :: rest ->
+      let rqt, rpt = split_bar rest [] in
+      let rq = tlvs_of_tokens rqt and rp = tlvs_of_tokens rpt in
+      let keyo = if key = "-" then None else Some (bytes_of_hex key) in
+      let mode = n_of_int (int_of_string mode) in
+      let rcode = int_of_string rcode and qcode = int_of_string qcode in
+      let s = string_of_bytes in
+      let line =
+        if kind = "reply" then begin
+          let f = replylog_fields_of sha256 hmac_sha256 rq rp (logfull = "1") mode keyo in
+          if rcode = 2 || rcode = 3 || rcode = 5 then
+            (match f.rl_user with
+             | Some u -> Printf.sprintf "%s for user %s%s%s from srv-name%s to cl-name (10.0.0.1)%s\n" (type_name rcode) (s u) (s f.rl_station) (s f.rl_cui) (s f.rl_replymsg) (s f.rl_operator)
+             | None -> Printf.sprintf "%s (response to %s) from srv-name to cl-name (10.0.0.1)\n" (type_name rcode) (type_name qcode))
+          else ""
+        end else
+          Printf.sprintf "F-TICKS/eduroam/1.0#REALM=%s#VISCOUNTRY=SE#%sCSI=%s#RESULT=%s#\n" (s (fticks_realm rq))
+            (if level = "2" then "VISINST=cl-name#" else "") (s (fticks_csi sha256 hmac_sha256 rq mode keyo)) (if rcode = 2 then "OK" else "FAIL") in
+      pr "obs %d log %s\n" opidx (hex_of_bytes (bytes_of_string line));
+      (match impl with
+       | Some [ "log"; h ] ->
+           let l = bytes_of_hex h in
+           (* no control character, no second line *)
+           let body = match List.rev l with x :: r when int_of_n x = 10 -> List.rev r | _ -> l in
+           spec opidx "C18_line_printable" (all_printable body) ""
+       | _ -> ())
+  | _ -> ()
+
 let run (opidx : int) (impl : string list option) (toks : string list) : bool =
   match toks with
   | "choose" :: rest -> op_choose opidx impl rest; true
+  | "logline" :: rest -> op_logline opidx impl rest; true
   | "frame" :: rest -> op_frame opidx impl rest; true
   | "addr" :: rest -> op_addr opidx impl rest; true
   | "rewrite" :: rest -> op_rewrite opidx impl rest; true
